@@ -90,6 +90,9 @@ pub struct Case {
     pub body_text: String,
     pub body_html: String,
     pub request_extra: (Option<String>, Option<String>, Option<String>, Option<String>),
+    /// warm the regex cache of the router with this limit before matching (0 = never)
+    #[serde(default)]
+    pub cache: u8,
 }
 
 // ---------------------------------------------------------------------------------------------
@@ -208,7 +211,16 @@ pub fn check(case: &Case) -> Outcome {
         json!({"action": "append_text", "content": case.body_text, "id": null, "target_hash": null}),
         json!({"action": "append_child", "value": case.body_html, "inner_value": case.body_html, "element_tree": ["html", "body"], "css_selector": null, "id": null, "target_hash": null}),
     ]);
-    let router = build_router(cfg, &[rule]);
+    let mut router = build_router(cfg, &[rule]);
+    match case.cache % 4 {
+        1 => router.cache(None),
+        2 => router.cache(Some(1)),
+        3 => router.cache(Some(1000)),
+        _ => {}
+    }
+    if case.cache % 4 != 0 {
+        out.class("regex-cache-warmed");
+    }
 
     // ---- the request ----
     let uri = fill(&case.path_tpl, &case.markers, true);
@@ -467,9 +479,9 @@ pub fn strategy() -> BoxedStrategy<Case> {
             ref_names.extend(["a".to_string(), "v".to_string(), "r0".to_string(), "r1".to_string(), "id".to_string()]);
             ref_names.sort();
             ref_names.dedup();
-            (Just(config), marker_strats, Just(li), variables, header_names, extra, piece_strategy(ref_names.clone()), piece_strategy(ref_names.clone()), piece_strategy(ref_names.clone()), piece_strategy(ref_names))
+            (Just(config), marker_strats, (Just(li), 0u8..8), variables, header_names, extra, piece_strategy(ref_names.clone()), piece_strategy(ref_names.clone()), piece_strategy(ref_names.clone()), piece_strategy(ref_names))
         })
-        .prop_map(|(config, markers, li, variables, (hn_rule, hn_req), request_extra, target, header_value, body_text, body_html)| {
+        .prop_map(|(config, markers, (li, cache), variables, (hn_rule, hn_req), request_extra, target, header_value, body_text, body_html)| {
             let layout = &LAYOUTS[li];
             Case {
                 config,
@@ -483,6 +495,7 @@ pub fn strategy() -> BoxedStrategy<Case> {
                 body_text,
                 body_html,
                 request_extra,
+                cache,
             }
         })
         .boxed()
